@@ -21,7 +21,7 @@ impl Default for MapCfg {
     }
 }
 
-const OBF_CLASSES: &[&str] = &["a", "b", "a.a", "a.b", "a$a", "a$", "a.", "aa", "é", "a.a$b", "ab", "b.a", "A", "a.a.a"];
+const OBF_CLASSES: &[&str] = &["a", "b", "a.a", "a.b", "a$a", "a$", "a.", "aa", "é", "a.a$b", "ab", "b.a", "A", "a.a.a", "int", "void", "boolean"];
 const ORIG_CLASSES: &[&str] = &[
     "com.example.Foo",
     "com.example.Foo$Bar",
@@ -33,6 +33,9 @@ const ORIG_CLASSES: &[&str] = &[
     "x.y.Z$1",
     "com.ex$ample.Outer$Gen.Main$$Lambda1",
     "p$.Q",
+    "com.example.$$a$b",
+    "$$$ab$c",
+    "p.$Proxy$1",
 ];
 const OBF_METHODS: &[&str] = &["a", "b", "m", "<init>", "a$b", "é"];
 const ORIG_METHODS: &[&str] = &["run", "call", "<init>", "lambda$x$0", "get", "é", "doWork"];
@@ -370,8 +373,36 @@ pub fn crafted() -> Vec<Vec<u8>> {
         // a bucket (name, arguments) of two real methods differing in return type only, the first declared in another
         // class, the second not; and the reverse order
         b"com.example.Host -> h:\n    void com.example.Moved.helper(int) -> b\n    int compute(int) -> b\n    int plain(long) -> c\n    void com.example.Moved.other(long) -> c\n",
+        // classes whose obfuscated name is a primitive keyword (keyword dictionaries produce them)
+        b"com.example.Widget -> int:\n    void m() -> a\ncom.example.Sink -> void:\ncom.example.Flag -> boolean:\n    int f -> b\ncom.example.Gadget -> a.b:\n    void m(int) -> a\n",
+        // names kept as they are, also as inlined callers: the original of an entry is itself an obfuscated key
+        b"keep.K -> keep.K:\n    1:20:void renamed():101:120 -> outer\n    void log() -> log\nx.User -> u:\n    5:5:void x.Callee.c():13:13 -> q\n    5:5:void keep.K.outer():7:7 -> q\n    5:5:void run():40:40 -> q\n    9:9:void keep.K.log():3:3 -> r\n    9:9:void keep.K.log():4:4 -> r\n",
+        // an empty obfuscated method name, in the middle of a class (legal for the parser)
+        b"com.example.Worker -> a.b:\n    1:2:void first():5:6 -> \n    void second() -> \n    3:4:void run():41:42 -> a\n    int f -> b\n",
     ];
-    v.into_iter().map(|x| x.to_vec()).collect()
+    let mut out: Vec<Vec<u8>> = v.into_iter().map(|x| x.to_vec()).collect();
+    // more than 20 by-params entries in one class, not in key order, with several distinct originals behind every
+    // (obfuscated name, arguments) pair: any re-ordering among equal keys is visible
+    let mut ties = String::from("com.example.Ties -> t:\n");
+    for k in 0..45usize {
+        let name = ["d", "a", "c", "b"][(k * 7 + k / 4) % 4];
+        let args = ["int", "", "long"][(k * 5 + k / 3) % 3];
+        let ret = ["void", "int", "long", "p.Q"][k % 4];
+        ties.push_str(&format!("    {}:{}:{} orig{}({}):{}:{} -> {}\n", 10 * k + 1, 10 * k + 5, ret, k, args, 1000 + k, 1004 + k, name));
+    }
+    out.push(ties.into_bytes());
+    // names, parameter strings and file names whose byte length sits on the boundaries of the string table's
+    // length prefix (127 / 128 / 129, 255 / 256 / 257)
+    let long = |c: char, n: usize| c.to_string().repeat(n);
+    let mut lens = String::new();
+    for (i, n) in [127usize, 128, 129, 255, 256, 257].iter().enumerate() {
+        lens.push_str(&format!("com.example.L{} -> {}:\n", i, long('k', *n)));
+        lens.push_str(&format!("# {{\"id\":\"sourceFile\",\"fileName\":\"{}.kt\"}}\n", long('f', *n - 3)));
+        lens.push_str(&format!("    1:2:void {}({}):3:4 -> {}\n", long('o', *n), long('p', *n), long('m', *n)));
+        lens.push_str(&format!("    void x.{}.g() -> h\n", long('C', *n - 2)));
+    }
+    out.push(lens.into_bytes());
+    out
 }
 
 /// method lines with every one of the four line numbers, in turn, set to a value around the integer widths:
